@@ -26,6 +26,8 @@ GenSpec == GenInit /\ [][GenNext]_genvars
 
 CoverNext == Next /\ hist' = Append(hist, last') /\ UNCHANGED done
 CoverSpec == GenInit /\ [][CoverNext]_genvars
+ReflectCoverNext == ReflectNext /\ hist' = Append(hist, last') /\ UNCHANGED done
+ReflectCoverSpec == GenInit /\ [][ReflectCoverNext]_genvars
 DumpEvery == (hist # <<>>) => Dump
 \* edge cover: printed for every generated transition (self-loops and transitions into known states too):
 \* the BFS-shortest path to the source state followed by the transition
